@@ -39,7 +39,8 @@ package bits
 //@   ensures srInv(s) && srSame(s, old(s.slice), old(s.len))
 //@   ensures old(s.err) == nil && old(s.pos)+1 <= s.len ==> s.err == nil && s.pos == old(s.pos)+1 && result == s.slice[old(s.pos)]
 //@   ensures !(old(s.err) == nil && old(s.pos)+1 <= s.len) ==> s.err != nil && s.pos == old(s.pos) && result == 0
-//@   assigns s.pos, s.err
+//@   defines[C01] s.err == nil ==> ghost(s).tr == trApp(old(ghost(s).tr), chU(8, uint64(result)))
+//@   assigns s.pos, s.err, ghost(s).tr
 
 //@ func (*FixedSliceReader).ReadUint16
 //@   notypeinv
@@ -47,7 +48,8 @@ package bits
 //@   ensures srInv(s) && srSame(s, old(s.slice), old(s.len))
 //@   ensures old(s.err) == nil && old(s.pos)+2 <= s.len ==> s.err == nil && s.pos == old(s.pos)+2 && result == be16(s.slice, old(s.pos))
 //@   ensures !(old(s.err) == nil && old(s.pos)+2 <= s.len) ==> s.err != nil && s.pos == old(s.pos) && result == 0
-//@   assigns s.pos, s.err
+//@   defines[C01] s.err == nil ==> ghost(s).tr == trApp(old(ghost(s).tr), chU(16, uint64(result)))
+//@   assigns s.pos, s.err, ghost(s).tr
 
 //@ func (*FixedSliceReader).ReadInt16
 //@   notypeinv
@@ -55,7 +57,8 @@ package bits
 //@   ensures srInv(s) && srSame(s, old(s.slice), old(s.len))
 //@   ensures old(s.err) == nil && old(s.pos)+2 <= s.len ==> s.err == nil && s.pos == old(s.pos)+2 && uint16(result) == be16(s.slice, old(s.pos))
 //@   ensures !(old(s.err) == nil && old(s.pos)+2 <= s.len) ==> s.err != nil && s.pos == old(s.pos) && result == 0
-//@   assigns s.pos, s.err
+//@   defines[C01] s.err == nil ==> ghost(s).tr == trApp(old(ghost(s).tr), chU(16, uint64(uint16(result))))
+//@   assigns s.pos, s.err, ghost(s).tr
 
 //@ func (*FixedSliceReader).ReadUint24
 //@   notypeinv
@@ -63,7 +66,8 @@ package bits
 //@   ensures srInv(s) && srSame(s, old(s.slice), old(s.len))
 //@   ensures old(s.err) == nil && old(s.pos)+3 <= s.len ==> s.err == nil && s.pos == old(s.pos)+3 && result == be24(s.slice, old(s.pos))
 //@   ensures !(old(s.err) == nil && old(s.pos)+3 <= s.len) ==> s.err != nil && s.pos == old(s.pos) && result == 0
-//@   assigns s.pos, s.err
+//@   defines[C01] s.err == nil ==> ghost(s).tr == trApp(old(ghost(s).tr), chU(24, uint64(result)))
+//@   assigns s.pos, s.err, ghost(s).tr
 
 //@ func (*FixedSliceReader).ReadUint32
 //@   notypeinv
@@ -71,7 +75,8 @@ package bits
 //@   ensures srInv(s) && srSame(s, old(s.slice), old(s.len))
 //@   ensures old(s.err) == nil && old(s.pos)+4 <= s.len ==> s.err == nil && s.pos == old(s.pos)+4 && result == be32(s.slice, old(s.pos))
 //@   ensures !(old(s.err) == nil && old(s.pos)+4 <= s.len) ==> s.err != nil && s.pos == old(s.pos) && result == 0
-//@   assigns s.pos, s.err
+//@   defines[C01] s.err == nil ==> ghost(s).tr == trApp(old(ghost(s).tr), chU(32, uint64(result)))
+//@   assigns s.pos, s.err, ghost(s).tr
 
 //@ func (*FixedSliceReader).ReadInt32
 //@   notypeinv
@@ -79,7 +84,8 @@ package bits
 //@   ensures srInv(s) && srSame(s, old(s.slice), old(s.len))
 //@   ensures old(s.err) == nil && old(s.pos)+4 <= s.len ==> s.err == nil && s.pos == old(s.pos)+4 && uint32(result) == be32(s.slice, old(s.pos))
 //@   ensures !(old(s.err) == nil && old(s.pos)+4 <= s.len) ==> s.err != nil && s.pos == old(s.pos) && result == 0
-//@   assigns s.pos, s.err
+//@   defines[C01] s.err == nil ==> ghost(s).tr == trApp(old(ghost(s).tr), chU(32, uint64(uint32(result))))
+//@   assigns s.pos, s.err, ghost(s).tr
 
 //@ func (*FixedSliceReader).ReadUint64
 //@   notypeinv
@@ -87,7 +93,8 @@ package bits
 //@   ensures srInv(s) && srSame(s, old(s.slice), old(s.len))
 //@   ensures old(s.err) == nil && old(s.pos)+8 <= s.len ==> s.err == nil && s.pos == old(s.pos)+8 && result == be64(s.slice, old(s.pos))
 //@   ensures !(old(s.err) == nil && old(s.pos)+8 <= s.len) ==> s.err != nil && s.pos == old(s.pos) && result == 0
-//@   assigns s.pos, s.err
+//@   defines[C01] s.err == nil ==> ghost(s).tr == trApp(old(ghost(s).tr), chU(64, result))
+//@   assigns s.pos, s.err, ghost(s).tr
 
 //@ func (*FixedSliceReader).ReadInt64
 //@   notypeinv
@@ -95,7 +102,8 @@ package bits
 //@   ensures srInv(s) && srSame(s, old(s.slice), old(s.len))
 //@   ensures old(s.err) == nil && old(s.pos)+8 <= s.len ==> s.err == nil && s.pos == old(s.pos)+8 && uint64(result) == be64(s.slice, old(s.pos))
 //@   ensures !(old(s.err) == nil && old(s.pos)+8 <= s.len) ==> s.err != nil && s.pos == old(s.pos) && result == 0
-//@   assigns s.pos, s.err
+//@   defines[C01] s.err == nil ==> ghost(s).tr == trApp(old(ghost(s).tr), chU(64, uint64(result)))
+//@   assigns s.pos, s.err, ghost(s).tr
 
 //@ func (*FixedSliceReader).ReadFixedLengthString
 //@   notypeinv
@@ -104,6 +112,8 @@ package bits
 //@   ensures old(s.err) == nil && n <= s.len-old(s.pos) ==> s.err == nil && s.pos == old(s.pos)+n && len(result) == n
 //@   ensures old(s.err) == nil && n <= s.len-old(s.pos) ==> forall j int :: 0 <= j && j < n ==> result[j] == s.slice[old(s.pos)+j]
 //@   ensures !(old(s.err) == nil && n <= s.len-old(s.pos)) ==> s.err != nil && s.pos == old(s.pos) && len(result) == 0
+//@   defines[C01] s.err == nil ==> ghost(s).tr == trApp(old(ghost(s).tr), chBytes(result))
+//@   assigns s.pos, s.err, ghost(s).tr
 
 //@ func (*FixedSliceReader).ReadZeroTerminatedString
 //@   notypeinv
@@ -129,7 +139,8 @@ package bits
 //@   ensures srInv(s) && srSame(s, old(s.slice), old(s.len))
 //@   ensures n >= 0 && old(s.err) == nil && n <= s.len-old(s.pos) ==> s.err == nil && s.pos == old(s.pos)+n && len(result) == n && result == s.slice[old(s.pos):old(s.pos)+n]
 //@   ensures !(n >= 0 && old(s.err) == nil && n <= s.len-old(s.pos)) ==> s.err != nil && s.pos == old(s.pos) && len(result) == 0
-//@   assigns s.pos, s.err
+//@   defines[C01] s.err == nil ==> ghost(s).tr == trApp(old(ghost(s).tr), chBytes(result))
+//@   assigns s.pos, s.err, ghost(s).tr
 
 //@ func (*FixedSliceReader).RemainingBytes
 //@   notypeinv
@@ -137,7 +148,8 @@ package bits
 //@   ensures srInv(s) && srSame(s, old(s.slice), old(s.len)) && s.err == old(s.err)
 //@   ensures old(s.err) == nil ==> s.pos == s.len && result == s.slice[old(s.pos):s.len]
 //@   ensures old(s.err) != nil ==> s.pos == old(s.pos) && len(result) == 0
-//@   assigns s.pos
+//@   defines[C01] s.err == nil ==> ghost(s).tr == trApp(old(ghost(s).tr), chBytes(result))
+//@   assigns s.pos, ghost(s).tr
 
 //@ func (*FixedSliceReader).NrRemainingBytes
 //@   notypeinv
@@ -152,6 +164,8 @@ package bits
 //@   ensures srInv(s) && srSame(s, old(s.slice), old(s.len))
 //@   ensures old(s.err) == nil && n <= s.len-old(s.pos) ==> s.err == nil && s.pos == old(s.pos)+n
 //@   ensures !(old(s.err) == nil && n <= s.len-old(s.pos)) ==> s.err != nil && s.pos == old(s.pos)
+//@   defines[C01] s.err == nil ==> ghost(s).tr == trApp(old(ghost(s).tr), chU(0, uint64(n)))
+//@   assigns s.pos, s.err, ghost(s).tr
 
 //@ func (*FixedSliceReader).SetPos
 //@   notypeinv
@@ -234,7 +248,7 @@ package bits
 //@   ensures swInv(sw) && sw.buf == old(sw.buf)
 //@   ensures swStep(old(sw.off)+1 <= len(sw.buf), sw.accError, old(sw.accError), sw.off, old(sw.off), 1)
 //@   ensures old(sw.off)+1 <= len(sw.buf) ==> sw.buf[old(sw.off)] == n
-//@   defines[C03] sw.accError == nil ==> ghost(sw).tr == trApp(old(ghost(sw).tr), chU(8, uint64(n)))
+//@   defines[C03,C01] sw.accError == nil ==> ghost(sw).tr == trApp(old(ghost(sw).tr), chU(8, uint64(n)))
 //@   assigns sw.off, sw.accError, sw.buf[sw.off:sw.off+1], ghost(sw).tr
 
 //@ func (*FixedSliceWriter).WriteUint16
@@ -243,7 +257,7 @@ package bits
 //@   ensures swInv(sw) && sw.buf == old(sw.buf)
 //@   ensures swStep(old(sw.off)+2 <= len(sw.buf), sw.accError, old(sw.accError), sw.off, old(sw.off), 2)
 //@   ensures old(sw.off)+2 <= len(sw.buf) ==> be16(sw.buf, old(sw.off)) == n
-//@   defines[C03] sw.accError == nil ==> ghost(sw).tr == trApp(old(ghost(sw).tr), chU(16, uint64(n)))
+//@   defines[C03,C01] sw.accError == nil ==> ghost(sw).tr == trApp(old(ghost(sw).tr), chU(16, uint64(n)))
 //@   assigns sw.off, sw.accError, sw.buf[sw.off:sw.off+2], ghost(sw).tr
 
 //@ func (*FixedSliceWriter).WriteInt16
@@ -252,7 +266,7 @@ package bits
 //@   ensures swInv(sw) && sw.buf == old(sw.buf)
 //@   ensures swStep(old(sw.off)+2 <= len(sw.buf), sw.accError, old(sw.accError), sw.off, old(sw.off), 2)
 //@   ensures old(sw.off)+2 <= len(sw.buf) ==> be16(sw.buf, old(sw.off)) == uint16(n)
-//@   defines[C03] sw.accError == nil ==> ghost(sw).tr == trApp(old(ghost(sw).tr), chU(16, uint64(uint16(n))))
+//@   defines[C03,C01] sw.accError == nil ==> ghost(sw).tr == trApp(old(ghost(sw).tr), chU(16, uint64(uint16(n))))
 //@   assigns sw.off, sw.accError, sw.buf[sw.off:sw.off+2], ghost(sw).tr
 
 //@ func (*FixedSliceWriter).WriteUint24
@@ -261,7 +275,7 @@ package bits
 //@   ensures swInv(sw) && sw.buf == old(sw.buf)
 //@   ensures swStep(old(sw.off)+3 <= len(sw.buf), sw.accError, old(sw.accError), sw.off, old(sw.off), 3)
 //@   ensures old(sw.off)+3 <= len(sw.buf) ==> be24(sw.buf, old(sw.off)) == n & 0xffffff
-//@   defines[C03] sw.accError == nil ==> ghost(sw).tr == trApp(old(ghost(sw).tr), chU(24, uint64(n & 0xffffff)))
+//@   defines[C03,C01] sw.accError == nil ==> ghost(sw).tr == trApp(old(ghost(sw).tr), chU(24, uint64(n & 0xffffff)))
 //@   assigns sw.off, sw.accError, sw.buf[sw.off:sw.off+3], ghost(sw).tr
 
 //@ func (*FixedSliceWriter).WriteUint32
@@ -270,7 +284,7 @@ package bits
 //@   ensures swInv(sw) && sw.buf == old(sw.buf)
 //@   ensures swStep(old(sw.off)+4 <= len(sw.buf), sw.accError, old(sw.accError), sw.off, old(sw.off), 4)
 //@   ensures old(sw.off)+4 <= len(sw.buf) ==> be32(sw.buf, old(sw.off)) == n
-//@   defines[C03] sw.accError == nil ==> ghost(sw).tr == trApp(old(ghost(sw).tr), chU(32, uint64(n)))
+//@   defines[C03,C01] sw.accError == nil ==> ghost(sw).tr == trApp(old(ghost(sw).tr), chU(32, uint64(n)))
 //@   assigns sw.off, sw.accError, sw.buf[sw.off:sw.off+4], ghost(sw).tr
 
 //@ func (*FixedSliceWriter).WriteInt32
@@ -279,7 +293,7 @@ package bits
 //@   ensures swInv(sw) && sw.buf == old(sw.buf)
 //@   ensures swStep(old(sw.off)+4 <= len(sw.buf), sw.accError, old(sw.accError), sw.off, old(sw.off), 4)
 //@   ensures old(sw.off)+4 <= len(sw.buf) ==> be32(sw.buf, old(sw.off)) == uint32(n)
-//@   defines[C03] sw.accError == nil ==> ghost(sw).tr == trApp(old(ghost(sw).tr), chU(32, uint64(uint32(n))))
+//@   defines[C03,C01] sw.accError == nil ==> ghost(sw).tr == trApp(old(ghost(sw).tr), chU(32, uint64(uint32(n))))
 //@   assigns sw.off, sw.accError, sw.buf[sw.off:sw.off+4], ghost(sw).tr
 
 //@ func (*FixedSliceWriter).WriteUint64
@@ -288,7 +302,7 @@ package bits
 //@   ensures swInv(sw) && sw.buf == old(sw.buf)
 //@   ensures swStep(old(sw.off)+8 <= len(sw.buf), sw.accError, old(sw.accError), sw.off, old(sw.off), 8)
 //@   ensures old(sw.off)+8 <= len(sw.buf) ==> be64(sw.buf, old(sw.off)) == n
-//@   defines[C03] sw.accError == nil ==> ghost(sw).tr == trApp(old(ghost(sw).tr), chU(64, n))
+//@   defines[C03,C01] sw.accError == nil ==> ghost(sw).tr == trApp(old(ghost(sw).tr), chU(64, n))
 //@   assigns sw.off, sw.accError, sw.buf[sw.off:sw.off+8], ghost(sw).tr
 
 //@ func (*FixedSliceWriter).WriteInt64
@@ -297,7 +311,7 @@ package bits
 //@   ensures swInv(sw) && sw.buf == old(sw.buf)
 //@   ensures swStep(old(sw.off)+8 <= len(sw.buf), sw.accError, old(sw.accError), sw.off, old(sw.off), 8)
 //@   ensures old(sw.off)+8 <= len(sw.buf) ==> be64(sw.buf, old(sw.off)) == uint64(n)
-//@   defines[C03] sw.accError == nil ==> ghost(sw).tr == trApp(old(ghost(sw).tr), chU(64, uint64(n)))
+//@   defines[C03,C01] sw.accError == nil ==> ghost(sw).tr == trApp(old(ghost(sw).tr), chU(64, uint64(n)))
 //@   assigns sw.off, sw.accError, sw.buf[sw.off:sw.off+8], ghost(sw).tr
 
 //@ func (*FixedSliceWriter).WriteUint48
@@ -306,7 +320,7 @@ package bits
 //@   ensures swInv(sw) && sw.buf == old(sw.buf)
 //@   ensures swStep(old(sw.off)+6 <= len(sw.buf), sw.accError, old(sw.accError), sw.off, old(sw.off), 6)
 //@   ensures old(sw.off)+6 <= len(sw.buf) ==> be16(sw.buf, old(sw.off)) == uint16(u>>32) && be32(sw.buf, old(sw.off)+2) == uint32(u)
-//@   defines[C03] sw.accError == nil ==> ghost(sw).tr == trApp(old(ghost(sw).tr), chU(48, u & 0xffffffffffff))
+//@   defines[C03,C01] sw.accError == nil ==> ghost(sw).tr == trApp(old(ghost(sw).tr), chU(48, u & 0xffffffffffff))
 //@   assigns sw.off, sw.accError, sw.buf[sw.off:sw.off+6], ghost(sw).tr
 
 //@ func (*FixedSliceWriter).WriteString
@@ -316,7 +330,7 @@ package bits
 //@   ensures swStep(old(sw.off)+len(s)+ite(addZeroEnd, 1, 0) <= len(sw.buf), sw.accError, old(sw.accError), sw.off, old(sw.off), len(s)+ite(addZeroEnd, 1, 0))
 //@   ensures old(sw.off)+len(s)+ite(addZeroEnd, 1, 0) <= len(sw.buf) ==> forall j int :: 0 <= j && j < len(s) ==> sw.buf[old(sw.off)+j] == old(s[j])
 //@   ensures old(sw.off)+len(s)+ite(addZeroEnd, 1, 0) <= len(sw.buf) && addZeroEnd ==> sw.buf[old(sw.off)+len(s)] == 0
-//@   defines[C03] sw.accError == nil ==> ghost(sw).tr == ite(addZeroEnd, trApp(trApp(old(ghost(sw).tr), chBytes(s)), chU(8, uint64(0))), trApp(old(ghost(sw).tr), chBytes(s)))
+//@   defines[C03,C01] sw.accError == nil ==> ghost(sw).tr == ite(addZeroEnd, trApp(trApp(old(ghost(sw).tr), chBytes(s)), chU(8, uint64(0))), trApp(old(ghost(sw).tr), chBytes(s)))
 //@   assigns sw.off, sw.accError, sw.buf[sw.off:sw.off+len(s)+1], ghost(sw).tr
 
 //@ func (*FixedSliceWriter).WriteBytes
@@ -325,7 +339,7 @@ package bits
 //@   ensures swInv(sw) && sw.buf == old(sw.buf)
 //@   ensures swStep(old(sw.off)+len(byteSlice) <= len(sw.buf), sw.accError, old(sw.accError), sw.off, old(sw.off), len(byteSlice))
 //@   ensures old(sw.off)+len(byteSlice) <= len(sw.buf) ==> forall j int :: 0 <= j && j < len(byteSlice) ==> sw.buf[old(sw.off)+j] == old(byteSlice[j])
-//@   defines[C03] sw.accError == nil ==> ghost(sw).tr == trApp(old(ghost(sw).tr), chBytes(byteSlice))
+//@   defines[C03,C01] sw.accError == nil ==> ghost(sw).tr == trApp(old(ghost(sw).tr), chBytes(byteSlice))
 //@   assigns sw.off, sw.accError, sw.buf[sw.off:sw.off+len(byteSlice)], ghost(sw).tr
 
 //@ func (*FixedSliceWriter).WriteZeroBytes
@@ -334,7 +348,7 @@ package bits
 //@   ensures swInv(sw) && sw.buf == old(sw.buf)
 //@   ensures swStep(old(sw.off)+n <= len(sw.buf), sw.accError, old(sw.accError), sw.off, old(sw.off), n)
 //@   ensures old(sw.off)+n <= len(sw.buf) ==> forall j int :: 0 <= j && j < n ==> sw.buf[old(sw.off)+j] == 0
-//@   defines[C03] sw.accError == nil ==> ghost(sw).tr == trApp(old(ghost(sw).tr), chU(0, uint64(n)))
+//@   defines[C03,C01] sw.accError == nil ==> ghost(sw).tr == trApp(old(ghost(sw).tr), chU(0, uint64(n)))
 //@   assigns sw.off, sw.accError, sw.buf[sw.off:sw.off+n], ghost(sw).tr
 //@   loop 1 invariant 0 <= i && i <= n && sw.off == old(sw.off)+i && sw.buf == old(sw.buf) && sw.accError == old(sw.accError) && old(sw.off)+n <= len(sw.buf)
 //@   loop 1 invariant forall j int :: 0 <= j && j < i ==> sw.buf[old(sw.off)+j] == 0
@@ -345,7 +359,7 @@ package bits
 //@   requires swInv(sw)
 //@   ensures swInv(sw) && sw.buf == old(sw.buf)
 //@   ensures swStep(old(sw.off)+36 <= len(sw.buf), sw.accError, old(sw.accError), sw.off, old(sw.off), 36)
-//@   defines[C03] sw.accError == nil ==> ghost(sw).tr == trApp(old(ghost(sw).tr), chU(1, uint64(0)))
+//@   defines[C03,C01] sw.accError == nil ==> ghost(sw).tr == trApp(old(ghost(sw).tr), chU(1, uint64(0)))
 //@   assigns sw.off, sw.accError, sw.buf[sw.off:sw.off+36], ghost(sw).tr
 
 // ---------------------------------------------------------------- bit writer / reader (C13)
